@@ -82,6 +82,22 @@ def units():
                       "pre_gi_flags": ["--remove-function-body", "psf_log_printf"],
                       "kind": "proof (encoding and byte order symbolic over everything the real sf_format_check admits; channels enumerated)",
                       "trusted": ["codec initialisers replaced by call-counting stand-ins", "harness virtual-I/O callbacks"]})
+    # C11: WAV header update for every admitted encoding (same harness, second stage)
+    # written, but out of reach: 24 GB exhausted during propositional reduction (symbolic file position in the second
+    # header pass over a 1 KiB store); not registered unless VERIF_WIP_WAVUPDATE is set
+    if "wav" in OPENS and os.environ.get("VERIF_WIP_WAVUPDATE"):
+        cfile, openfn, cfmt, stubs, extra_link = OPENS["wav"]
+        for sub in ("IMA_ADPCM", "MS_ADPCM", "GSM610", "G721_32", "NMS_ADPCM_16", "NMS_ADPCM_24", "NMS_ADPCM_32", "PCM_16", "FLOAT", "ULAW"):
+          for ch in ((1, 2) if sub in ("IMA_ADPCM", "MS_ADPCM") else (1,)):
+            U.append({"name": "update.wav.%s.ch%d" % (sub, ch), "props": ["C11"], "harness": "hdr_open.harness.c", "entry": "h_open_write",
+                      "dfcc": False, "function": "wav.c:wav_open + wav_write_header (calc_length) + sndfile.c:sf_format_check",
+                      "link_sources": ["common.c", "file_io.c", "sndfile.c"] + extra_link,
+                      "defines": ["-DCH=%d" % ch, "-DCONTAINER_FILE=\"%s\"" % cfile, "-DOPEN_FN=%s" % openfn, "-DCONTAINER_FMT=%s" % cfmt,
+                                  "-DCODEC_STUBS=%s" % stubs, "-DWAV_UPDATE_CHECK", "-DSUBFORMAT_FIXED=SF_FORMAT_" + sub], "mem_gb": 24,
+                      "cbmc_flags": ["--unwind", "80", "--unwindset", "v_write.0:1030", "--object-bits", "12"], "timeout": 900,
+                      "tier": "quick" if (ch == 1 and sub in ("IMA_ADPCM", "GSM610", "PCM_16")) else "thorough", "pre_gi_flags": ["--remove-function-body", "psf_log_printf"],
+                      "kind": "enumerated(encoding=%s, channels=%d); audio bytes L and frames symbolic" % (sub, ch),
+                      "trusted": ["codec initialisers replaced by call-counting stand-ins (block codecs leave bytewidth 0 as the real ones do)", "harness virtual-I/O callbacks"]})
     return U
 
 
